@@ -9,12 +9,19 @@
 //! Operations: `cfg <cap>` | `est <p> <conn>` | `closed <p> <conn>` | `open <p>` |
 //! `conn_recv <conn>` | `conn_drop <conn>` | `subopen <p> <sid|in> <conn>` | `subfail <sid>` |
 //! `dialfail <p>` | `bump <k>` | `next`.
+//!
+//! The rest of the public API of `TransportService` (coverage round `c08b`):
+//! `force <p>` (`force_close`; the observation carries `connections` right after the call) and the
+//! methods that delegate to the `TransportManagerHandle` — `lpid` (`local_peer_id`), `addrs`
+//! (`listen_addresses`, `public_addresses`), `known <p> <kind> <port>` (`add_known_address` with one
+//! address of kind `tcp|tcpp|wrong|udp|unspec`), `dial <p>`, `dial_addr <p> <kind> <port>`,
+//! `unregister` (`unregister_protocol`), `mgr_recv` (what the manager would receive).
 
 use super::*;
 use crate::{
     codec::ProtocolCodec,
     protocol::{Direction, Permit, ProtocolCommand},
-    transport::manager::handle::InnerTransportManagerCommand,
+    transport::manager::{handle::InnerTransportManagerCommand, SupportedTransport},
     verif::{peer, peer_index, VerifBox},
     BandwidthSink,
 };
@@ -91,7 +98,8 @@ pub struct ServiceBox {
     rt: tokio::runtime::Runtime,
     svc: Option<TransportService>,
     tx: Option<Sender<InnerTransportEvent>>,
-    _mgr_rx: Option<Receiver<InnerTransportManagerCommand>>,
+    mgr_rx: Option<Receiver<InnerTransportManagerCommand>>,
+    known: KnownAddresses,
     counter: Arc<AtomicUsize>,
     cap: usize,
     conns: HashMap<usize, Conn>,
@@ -110,13 +118,39 @@ pub(crate) fn make_service(
     Sender<InnerTransportEvent>,
     Receiver<InnerTransportManagerCommand>,
 ) {
-    let (cmd_tx, cmd_rx) = channel(64);
+    let (service, sender, cmd_rx, _) =
+        make_service_with_peers(protocol, counter, keep_alive_timeout, keep_alive);
+    (service, sender, cmd_rx)
+}
+
+/// Capacity of the command channel towards the (absent) transport manager.
+pub(crate) const MGR_CHANNEL: usize = 64;
+
+/// Reads the addresses stored for a peer in the table the manager handle shares with the manager.
+pub(crate) type KnownAddresses = Box<dyn Fn(&PeerId) -> Vec<Multiaddr>>;
+
+/// As [`make_service`]; also returns a reader of the peer table the manager handle shares with the
+/// manager. TCP is the one supported transport (as in a default node), so `add_known_address` keeps
+/// TCP addresses.
+pub(crate) fn make_service_with_peers(
+    protocol: &'static str,
+    counter: Arc<AtomicUsize>,
+    keep_alive_timeout: Duration,
+    keep_alive: SubstreamKeepAlive,
+) -> (
+    TransportService,
+    Sender<InnerTransportEvent>,
+    Receiver<InnerTransportManagerCommand>,
+    KnownAddresses,
+) {
+    let (cmd_tx, cmd_rx) = channel(MGR_CHANNEL);
     let local = peer(0);
+    let peers = Arc::new(parking_lot::RwLock::new(HashMap::new()));
     let handle = TransportManagerHandle::new(
         local,
-        Arc::new(parking_lot::RwLock::new(HashMap::new())),
+        peers.clone(),
         cmd_tx,
-        HashSet::new(),
+        HashSet::from_iter([SupportedTransport::Tcp]),
         Default::default(),
         PublicAddresses::new(local),
     );
@@ -129,7 +163,64 @@ pub(crate) fn make_service(
         keep_alive_timeout,
         keep_alive,
     );
-    (service, sender, cmd_rx)
+    let known: KnownAddresses = Box::new(move |peer| {
+        peers
+            .read()
+            .get(peer)
+            .map(|context| context.addresses.addresses(usize::MAX))
+            .unwrap_or_default()
+    });
+    (service, sender, cmd_rx, known)
+}
+
+/// One address of the given kind for `add_known_address` / `dial_address`.
+fn address_of(kind: &str, p: u64, port: u16) -> Option<Multiaddr> {
+    use multiaddr::Protocol;
+    let ip = Protocol::Ip4(std::net::Ipv4Addr::new(10, 0, 0, 1));
+    Some(match kind {
+        // no peer id: the service appends `/p2p/<peer>`
+        "tcp" => Multiaddr::empty().with(ip).with(Protocol::Tcp(port)),
+        "tcpp" => Multiaddr::empty()
+            .with(ip)
+            .with(Protocol::Tcp(port))
+            .with(Protocol::P2p(peer(p).into())),
+        // peer id of somebody else: refused by the handle
+        "wrong" => Multiaddr::empty()
+            .with(ip)
+            .with(Protocol::Tcp(port))
+            .with(Protocol::P2p(peer(p + 100).into())),
+        // transport that is not enabled
+        "udp" => Multiaddr::empty().with(ip).with(Protocol::Udp(port)),
+        "unspec" => Multiaddr::empty()
+            .with(Protocol::Ip4(std::net::Ipv4Addr::UNSPECIFIED))
+            .with(Protocol::Tcp(port)),
+        _ => return None,
+    })
+}
+
+/// `(port, ends with /p2p/<p>)` of a stored or dialed address.
+fn show_address(address: &Multiaddr, p: u64) -> String {
+    use multiaddr::Protocol;
+    let port = address
+        .iter()
+        .find_map(|x| match x {
+            Protocol::Tcp(port) | Protocol::Udp(port) => Some(port),
+            _ => None,
+        })
+        .unwrap_or(0);
+    let own = PeerId::try_from_multiaddr(address) == Some(peer(p));
+    format!("{}{}", port, if own { "" } else { "!" })
+}
+
+fn show_dial_error(error: &ImmediateDialError) -> &'static str {
+    match error {
+        ImmediateDialError::PeerIdMissing => "err no-peer-id",
+        ImmediateDialError::TriedToDialSelf => "err self",
+        ImmediateDialError::AlreadyConnected => "err connected",
+        ImmediateDialError::NoAddressAvailable => "err no-address",
+        ImmediateDialError::TaskClosed => "err task-closed",
+        ImmediateDialError::ChannelClogged => "err clogged",
+    }
 }
 
 pub(crate) fn show_event(event: &TransportEvent) -> String {
@@ -222,7 +313,8 @@ impl ServiceBox {
                 .expect("runtime"),
             svc: None,
             tx: None,
-            _mgr_rx: None,
+            mgr_rx: None,
+            known: Box::new(|_| Vec::new()),
             counter: Arc::new(AtomicUsize::new(0)),
             cap: 2,
             conns: HashMap::new(),
@@ -233,7 +325,7 @@ impl ServiceBox {
 
     fn setup(&mut self, cap: usize) {
         self.counter = Arc::new(AtomicUsize::new(0));
-        let (svc, tx, mgr_rx) = make_service(
+        let (svc, tx, mgr_rx, known) = make_service_with_peers(
             "/verif/1",
             self.counter.clone(),
             Duration::from_secs(3600),
@@ -241,7 +333,8 @@ impl ServiceBox {
         );
         self.svc = Some(svc);
         self.tx = Some(tx);
-        self._mgr_rx = Some(mgr_rx);
+        self.mgr_rx = Some(mgr_rx);
+        self.known = known;
         self.cap = cap;
         self.conns.clear();
         self.poisoned = false;
@@ -372,6 +465,86 @@ impl VerifBox for ServiceBox {
                     Err(other) => format!("err other:{other:?}"),
                 }
             }
+            ["force", p] => {
+                let Some(p) = n(p) else { return "bad-op".into() };
+                let svc = self.svc.as_mut().expect("service");
+                let result = match svc.force_close(peer(p as u64)) {
+                    Ok(()) => "ok".to_string(),
+                    Err(Error::PeerDoesntExist(_)) => "err no-peer".into(),
+                    Err(Error::ConnectionClosed) => "err closed".into(),
+                    Err(Error::ChannelClogged) => "err clogged".into(),
+                    Err(other) => format!("err other:{other:?}"),
+                };
+                format!("{} conns={}", result, show_connections(svc))
+            }
+            ["lpid"] => {
+                let svc = self.svc.as_ref().expect("service");
+                match peer_index(&svc.local_peer_id()) {
+                    Some(i) => format!("peer {i}"),
+                    None => "peer ?".into(),
+                }
+            }
+            ["addrs"] => {
+                let svc = self.svc.as_ref().expect("service");
+                format!(
+                    "listen={} public={}",
+                    svc.listen_addresses().len(),
+                    svc.public_addresses().get_addresses().len()
+                )
+            }
+            ["known", p, kind, port] => {
+                let (Some(p), Some(port)) = (n(p), n(port)) else { return "bad-op".into() };
+                let Some(address) = address_of(kind, p as u64, port as u16) else {
+                    return "bad-op".into();
+                };
+                let svc = self.svc.as_mut().expect("service");
+                svc.add_known_address(&peer(p as u64), std::iter::once(address));
+                let mut stored: Vec<String> = (self.known)(&peer(p as u64))
+                    .iter()
+                    .map(|a| show_address(a, p as u64))
+                    .collect();
+                stored.sort();
+                format!("stored=[{}]", stored.join(","))
+            }
+            ["dial", p] => {
+                let Some(p) = n(p) else { return "bad-op".into() };
+                let svc = self.svc.as_mut().expect("service");
+                match svc.dial(&peer(p as u64)) {
+                    Ok(()) => "ok".into(),
+                    Err(error) => show_dial_error(&error).into(),
+                }
+            }
+            ["dial_addr", p, kind, port] => {
+                let (Some(p), Some(port)) = (n(p), n(port)) else { return "bad-op".into() };
+                let Some(address) = address_of(kind, p as u64, port as u16) else {
+                    return "bad-op".into();
+                };
+                let svc = self.svc.as_mut().expect("service");
+                match svc.dial_address(address) {
+                    Ok(()) => "ok".into(),
+                    Err(error) => show_dial_error(&error).into(),
+                }
+            }
+            ["unregister"] => {
+                self.svc.as_ref().expect("service").unregister_protocol();
+                "ok".into()
+            }
+            ["mgr_recv"] => match self.mgr_rx.as_mut().expect("service").try_recv() {
+                Ok(InnerTransportManagerCommand::DialPeer { peer }) => format!(
+                    "dial {}",
+                    peer_index(&peer).map(|i| i.to_string()).unwrap_or_else(|| "?".into())
+                ),
+                Ok(InnerTransportManagerCommand::DialAddress { address }) => {
+                    let p = PeerId::try_from_multiaddr(&address)
+                        .and_then(|peer| peer_index(&peer))
+                        .unwrap_or(u64::MAX);
+                    format!("dial_addr {} {}", p, show_address(&address, p))
+                }
+                Ok(InnerTransportManagerCommand::UnregisterProtocol { protocol }) =>
+                    format!("unregister {protocol}"),
+                Err(TryRecvError::Empty) => "empty".into(),
+                Err(TryRecvError::Disconnected) => "disconnected".into(),
+            },
             ["conn_recv", c] => {
                 let Some(c) = n(c) else { return "bad-op".into() };
                 let Some(conn) = self.conns.get_mut(&c) else { return "gone".into() };
